@@ -270,6 +270,105 @@ def gen_tcp_probe(ctx):
     return cases
 
 
+def gen_seq(ctx):
+    """tunnels one after the other through the real Proxy() in one process: the earlier ones leave through every early-exit
+    path (dial fails, PROXY header cannot be written, a failing SetDeadline at call index 0..3 on the client connection),
+    the later ones are ordinary tunnels with data both ways whose outcome must be that of a fresh process"""
+    rng = ctx.rng
+
+    def chunks(maxn=3):
+        return [bytes(rng.randrange(256) for _ in range(rng.choice([1, 2, 5, 40, 700]))).hex() for _ in range(rng.randrange(0, maxn + 1))]
+
+    def normal():
+        return {"kind": "normal", "dl_fail_at": -1, "up": chunks(), "down": chunks()}
+
+    def early(kind, at=-1):
+        t = {"kind": kind, "dl_fail_at": at, "up": [], "down": []}
+        if kind == "dlfail" and at >= 2:
+            t["up"], t["down"] = chunks(2) + ["aa"], chunks(2) + ["bb"]     # the refresh calls only come after data
+        return t
+    cases = []
+    earlies = [("dialfail", -1), ("hdrfail", -1)] + [("dlfail", k) for k in range(4)]
+    for kind, at in earlies:
+        cases.append({"name": "after-%s%s" % (kind, at if at >= 0 else ""), "pin": True, "tunnels": [early(kind, at), normal(), normal()]})
+    for i in range(2 if ctx.tier == "quick" else 10):
+        ts = []
+        for _ in range(rng.randrange(2, 5)):
+            k, at = rng.choice(earlies)
+            ts += [early(k, at)] * rng.choice([1, 1, 2]) + [normal()]
+        cases.append({"name": "after-mixed-%d" % i, "pin": rng.random() < 0.5, "tunnels": ts})
+    return cases
+
+
+def check_seq(ctx, cases, res):
+    """the property's statement on every tunnel of every sequence; returns the Gallina terms"""
+    terms, meta = [], []
+    for c, r in zip(cases, res):
+        slim = dict(c, mode="seq")
+        ctx.count(slim, nontrivial=True, kind="seq/" + c["name"].rsplit("-", 1)[0] if c["name"].startswith("after-mixed") else "seq/" + c["name"].rstrip("0123456789"))
+        rows = []
+        prev = "first"
+        for j, (t, o) in enumerate(zip(c["tunnels"], r["tunnels"])):
+            where = "%s/tunnel%d-%s-after-%s" % (c["name"], j, t["kind"], prev)
+            prev = t["kind"] + (str(t["dl_fail_at"]) if t["kind"] == "dlfail" else "")
+            if o["panic"]:
+                if o["panic"].startswith("listen"):
+                    ctx.broken("driver", "sequence lane could not listen: %s" % o["panic"], slim)
+                else:
+                    ctx.fail("panic/seq/" + where, "Proxy panicked: %s" % o["panic"], slim)
+                rows = None
+                break
+            if not o["returned"]:
+                ctx.fail("no-return/seq/" + where, "Proxy did not return within 15 s (tunnel %d of the sequence: %s)" % (j, t["kind"]), slim)
+                rows = None
+                break
+            up, down = bytes.fromhex("".join(t["up"])), bytes.fromhex("".join(t["down"]))
+            cg, kg = bytes.fromhex(o["covertGot"]), bytes.fromhex(o["clientGot"])
+            if o["gauge1"] != o["gauge0"]:
+                ctx.fail("gauge/seq/" + where, "session gauge %d before, %d after the tunnel" % (o["gauge0"], o["gauge1"]), slim)
+            if o["gleak"] > 0:
+                ctx.fail("goroutine-leak/seq/" + where, "%d goroutine(s) left behind after the tunnel" % o["gleak"], slim)
+            if cg != up[:len(cg)] or kg != down[:len(kg)]:
+                ctx.fail("corrupt/seq/" + where, "a side received bytes that are not a prefix of what the other side sent "
+                         "(covert got %s of %s, client got %s of %s)" % (cg.hex()[:60], up.hex()[:60], kg.hex()[:60], down.hex()[:60]), slim)
+            relayed = t["kind"] in ("normal", "dlfail")
+            if t["kind"] == "normal":
+                if cg != up or kg != down:
+                    ctx.fail("lost-data/seq/" + where, "an ordinary tunnel after %s: the covert destination received %d of the %d bytes the client "
+                             "sent, the client %d of the %d bytes the destination sent" % (where.rsplit("after-", 1)[1], len(cg), len(up), len(kg), len(down)), slim)
+            if relayed:
+                if not o["summary"]:
+                    ctx.fail("no-summary/seq/" + where, "the tunnel ended without its summary line", slim)
+                elif o["bytesUp"] != len(cg) or o["bytesDown"] != len(kg):
+                    ctx.fail("count/seq/" + where, "the tunnel reports %d up / %d down but %d / %d bytes were delivered"
+                             % (o["bytesUp"], o["bytesDown"], len(cg), len(kg)), slim)
+                d = o["delta"]
+                if o["summary"] and (d["NewUp"], d["NewDown"], d["ComplUp"], d["ComplDown"]) != (o["bytesUp"], o["bytesDown"], o["bytesUp"], o["bytesDown"]):
+                    ctx.fail("global-stats/seq/" + where, "the process-wide statistics grew by %s while the tunnel reports %d up / %d down"
+                             % ((d["NewUp"], d["NewDown"], d["ComplUp"], d["ComplDown"]), o["bytesUp"], o["bytesDown"]), slim)
+                if o["nclose"] < 1:
+                    ctx.fail("not-closed/seq/" + where, "the relay never closed the client connection", slim)
+            else:
+                if cg or kg or any(o["delta"].values()):
+                    ctx.fail("early-exit-effects/seq/" + where, "a tunnel that never relayed (%s) forwarded bytes or changed the process-wide "
+                             "statistics: %s" % (t["kind"], o["delta"]), slim)
+            ex = 1 if o["dialErr"] else (0 if o["summary"] else 2)
+            cmp_bytes = t["kind"] != "dlfail" or (not t["up"] and not t["down"])
+            d = o["delta"]
+            kind_code = {"normal": 0, "dialfail": 1, "hdrfail": 2, "dlfail": 3}[t["kind"]]
+            gl = lambda hs: glist(hs, lambda h: bspec_in(bytes.fromhex(h)))
+            rows.append("((%s, %s, %s), (%s, %s, %s, %s, %s, %s, %s, %s, (%s, %s, %s, %s, %s, %s, %s)))" % (
+                gN(kind_code), gl(t["up"] if t["kind"] == "normal" else []), gl(t["down"] if t["kind"] == "normal" else []),
+                gN(ex), bspec_obs(cg), bspec_obs(kg), gN(o["bytesUp"]), gN(o["bytesDown"]), gbool(o["nclose"] >= 1), gbool(o["summary"]),
+                gbool(cmp_bytes), gN(d["NewUp"]), gN(d["NewDown"]), gN(d["ComplUp"]), gN(d["ComplDown"]), gN(d["ZeroUp"]), gN(d["ZeroDown"]),
+                gN(d["Completed"])))
+        if rows:
+            terms.append("CSeq %s" % glist(rows, lambda x: x))
+            meta.append((c, r, "tunnels in sequence through Proxy(): exit path, bytes delivered both ways, reported counts, closes, summary "
+                         "and the growth of the process-wide statistics of every tunnel against proxy_seq"))
+    return terms, meta
+
+
 def tcp_faithful_dirs(c):
     """directions of a real-TCP case in which the property promises complete delivery AT THE PEER: the sender handed
     everything to the kernel and ended its stream cleanly, the receiver reads until its own stream ends and never fails"""
@@ -459,19 +558,28 @@ def run(ctx):
                 # direction runs to completion before its closer is scheduled
                 c["sched"] = [] if c["cf"] else [t] * (4 * len(c[c["dir"]]["reads"]) + 12)
     jc = [{k: v for k, v in c.items() if k not in ("why", "cf")} for c in cases]
-    files = {"zz_verif_driver_test.go": "c05/halfpipe_driver_test.go", "zz_verif_tcp_test.go": "c05/tcp_driver_test.go"}
+    files = {"zz_verif_driver_test.go": "c05/halfpipe_driver_test.go", "zz_verif_tcp_test.go": "c05/tcp_driver_test.go",
+             "zz_verif_seq_test.go": "c05/seq_driver_test.go"}
     # the real-TCP lane runs in its own test process, concurrently with the scripted cases
     tcp_cases = [{k: v for k, v in f["case"].items() if k != "mode"} for f in rp.get("failures", [])
                  if isinstance(f.get("case"), dict) and f["case"].get("mode") == "tcp" and "client" in f["case"]] + gen_tcp(ctx)
     tcp_box = {}
+    seq_cases = [{k: v for k, v in f["case"].items() if k != "mode"} for f in rp.get("failures", [])
+                 if isinstance(f.get("case"), dict) and f["case"].get("mode") == "seq" and "tunnels" in f["case"]] + gen_seq(ctx)
 
     def tcp_lane():
         tcp_box["r"] = ctx.go_inpkg(".", "pkg/station/lib", files, "^TestVerifC05TCP$", tcp_cases, timeout=300)
+
+    def seq_lane():
+        tcp_box["s"] = ctx.go_inpkg(".", "pkg/station/lib", files, "^TestVerifC05Seq$", seq_cases, timeout=300)
     import threading
     th = threading.Thread(target=tcp_lane)
     th.start()
+    th2 = threading.Thread(target=seq_lane)
+    th2.start()
     rc, out, res = ctx.go_inpkg(".", "pkg/station/lib", files, "^TestVerifC05$", jc, timeout=900)
     th.join()
+    th2.join()
     if res is None or len(res) != len(cases):
         ctx.broken("driver", "Go driver did not produce results (rc=%s): %s" % (rc, out[-1200:]))
         return
@@ -480,6 +588,12 @@ def run(ctx):
         ctx.broken("driver", "Go driver (real-TCP lane) did not produce results (rc=%s): %s" % (rct, outt[-1200:]))
     else:
         check_tcp(ctx, tcp_cases, rest)
+    rcs, outs, ress = tcp_box.get("s", (1, "lane did not run", None))
+    seq_terms, seq_meta = [], []
+    if ress is None or len(ress) != len(seq_cases):
+        ctx.broken("driver", "Go driver (sequence lane) did not produce results (rc=%s): %s" % (rcs, outs[-1200:]))
+    else:
+        seq_terms, seq_meta = check_seq(ctx, seq_cases, ress)
     rc2, out2, pres = ctx.go_inpkg(".", "pkg/station/lib", files, "^TestVerifC05$",
                                    [{k: v for k, v in c.items() if k != "why"} for c in proxy_cases], timeout=900)
     if pres is None or len(pres) != len(proxy_cases):
@@ -599,7 +713,8 @@ def run(ctx):
                        "half/write-fault/err", "half/deadline-fault", "half/close-fault", "half/close-blocks", "half/pair/read+write",
                        "half/pair/read+deadline", "half/large", "pair/exh-sched", "pair/random", "free/free", "proxy/dialfail",
                        "tcp/down-blocked-client", "tcp/up-blocked-covert", "tcp/client-sends-then", "tcp/both-blocked-client",
-                       "tcp/slow-up", "tcp/slow-down", "tcp/probe-client", "tcp/probe-covert"])
+                       "tcp/slow-up", "tcp/slow-down", "tcp/probe-client", "tcp/probe-covert",
+                       "seq/after-dialfail", "seq/after-hdrfail", "seq/after-dlfail", "seq/after-mixed"])
     idx = [i for i, t in enumerate(terms) if t is not None]
     # real-TCP lane: kinds seen by the driver, Proxy returned, the reading peers saw their connection closed
     tcp_terms, tcp_meta = [], []
@@ -631,6 +746,8 @@ def run(ctx):
                 tcp_meta.append((c, r, "slow-but-complete reader drained within the linger time (%d ms): the socket model delivers every written "
                                  "byte and then EOF; observed %d of %d bytes, counted %d, stream ended with %r"
                                  % (max(ms, 0), r[rcv]["got"], r[snd]["sent"], r[cnt], r[rcv]["sawClose"])))
+    tcp_terms += seq_terms
+    tcp_meta += [(dict(c, mode="seq"), r, what) for c, r, what in seq_meta]
     mm = ctx.coq_mismatches("hp", HEADER, [terms[i] for i in idx] + tcp_terms, "chk", shard=400, need_vo=["C05/Run.vo"])
     tcp_mm = [m for m in mm if m >= len(idx)]
     mm = [m for m in mm if m < len(idx)]
@@ -638,7 +755,7 @@ def run(ctx):
         c, r, what = tcp_meta[tcp_mm[0] - len(idx)]
         ctx.cov["mismatches"] += len(tcp_mm)
         ctx.broken("correspondence", "model C05 and the implementation disagree on %d real-TCP term(s); first: %s — %s"
-                   % (len(tcp_mm), c["name"], what), {"case": dict(c, mode="tcp"), "observed": r})
+                   % (len(tcp_mm), c["name"], what), {"case": dict(c, mode=c.get("mode", "tcp")), "observed": r})
     if mm:
         ctx.cov["mismatches"] += len(mm)
         i = idx[mm[0]]
